@@ -78,6 +78,22 @@ EncodeParse == \A o \in Objects : Parse(Encode(o)).ok /\ Encode(Parse(Encode(o))
 NeedsRehash(o, ops, memKiB) == ~(o.t = ops /\ o.m = memKiB)
 RehashTable == \A o \in Objects, ops \in TCosts, mem \in MCosts : NeedsRehash(o, ops, mem) = (o.t # ops \/ o.m # mem)
 
+(* ---- cost fields over their whole domain (no hashing involved) -------------------------------
+   The string carries m in KiB and t as 32-bit decimal numbers; the API takes the memory limit in BYTES and floors it to
+   KiB before it is compared (needs-rehash) or written (encode).  Numbers beyond TLC's 31 bits are written as decimal
+   text; only equality is needed.  A byte count is the pair <<KiB, remainder below 1024>>. *)
+BigM == {"8", "65536", "4194303", "4194304", "4259840", "4294967295"}      \* 4194304 KiB = 4 GiB: where a 32-bit byte count wraps
+BigT == {"1", "3", "4294967295"}
+Rems == {0, 1, 500, 1023}
+KiBOf(bytes) == bytes[1]
+NeedsRehashBytes(m, t, ops, membytes) == ~(t = ops /\ m = KiBOf(membytes))
+CostRows == {[m |-> m, t |-> t, ops |-> ops, memKiB |-> k, rem |-> r, needs |-> NeedsRehashBytes(m, t, ops, <<k, r>>)] :
+               m \in BigM, t \in BigT, ops \in BigT, k \in BigM, r \in Rems}
+\* the remainder never matters, and equal costs never need a rehash
+FloorIrrelevant == \A x \in CostRows : x.needs = (x.m # x.memKiB \/ x.t # x.ops)
+\* a parsed string re-encodes its cost fields unchanged whatever their size: the (m, t) pairs the harness parses and re-encodes
+CostStrings == {[m |-> m, t |-> t] : m \in BigM, t \in BigT}
+
 (* ---- the mutation grammar (C04 string rows): one deviation from a valid string ------------- *)
 Remove(s, i) == SubSeq(s, 1, i - 1) \o SubSeq(s, i + 1, Len(s))
 Insert(s, i, x) == SubSeq(s, 1, i - 1) \o <<x>> \o SubSeq(s, i, Len(s))
